@@ -160,7 +160,7 @@ let rec rand_value ?(nil1in = 5) r (t : tdesc) : v =
 let rand_leaf r = if rbool r then VS (rand_word r) else VI (rrange r (-5) 99)
 
 let rand_map r : v =
-  let kind = pick r [| "generic"; "generic"; "str"; "int" |] in
+  let kind = pick r [| "generic"; "generic"; "str"; "int"; "iface"; "named" |] in
   let n = rrange r 0 4 in
   let keys = List.sort_uniq compare (List.init n (fun _ -> pick r lookup_names)) in
   VMap (kind, List.map (fun k ->
@@ -235,7 +235,7 @@ let all_steps_for vi = List.concat_map (fun n -> [ { vi; dot = true; name = n };
 let fixed_case r oc =
   let vals = List.concat_map (fun t -> let x = rand_value r t in [ x; VPtr x ]) catalogue
              @ [ VMap ("generic", [ "Name", VS "g"; "Id", VI 4; "Val", VNil ]); VMap ("str", [ "Name", VS "ts"; "x", VS "" ]);
-                 VMap ("int", [ "Name", VI 7 ]); VNil; VNilPtr c_outer; VSt (c_uep, [ VNilPtr c_uinner; VS "z" ]);
+                 VMap ("int", [ "Name", VI 7 ]); VMap ("iface", [ "Name", VS "if"; "Id", VI 5; "Val", VNil ]); VMap ("named", [ "Name", VS "nm"; "x", VI 2 ]); VNil; VNilPtr c_outer; VSt (c_uep, [ VNilPtr c_uinner; VS "z" ]);
                  VPtr (VMap ("generic", [ "Name", VS "g" ])) ] in
   let vals = Array.of_list vals in
   let steps = Array.of_list (List.concat (List.init (Array.length vals) all_steps_for)) in
